@@ -363,7 +363,7 @@ class Fn(tryexc.TryExcept, Stmts):
             if ty == BYTES and f.attr == 'decode' and len(a) == 1 and isinstance(a[0], ast.Constant) and a[0].value == 'ASCII':
                 return self.hoist(B, f'Py.decodeAsciiBytes {atom(t)}'), STR
             if ty == STR and f.attr == 'strip' and len(a) == 1 and isinstance(a[0], ast.Constant) and isinstance(a[0].value, str):
-                return f'(Py.stripChars {atom(t)} {text_lit(a[0].value)})', STR
+                return f'(Py.stripCodes {atom(t)} [' + ', '.join(str(ord(c)) for c in a[0].value) + '])', STR
             if ty == STR and f.attr == 'split' and len(a) == 1 and isinstance(a[0], ast.Constant) and isinstance(a[0].value, str) and len(a[0].value) == 1:
                 return f'(Po.splitOn {char_lit(a[0].value)} {atom(t)})', LSTR
             if ty == STR and f.attr == 'split' and len(a) == 2 and isinstance(a[0], ast.Constant) and a[0].value is None and isinstance(a[1], ast.Constant) and \
